@@ -129,6 +129,38 @@ def run(chk, w):
             if ok_reg:
                 chk.ok("C04-WALK", 1, {"function": name, "registration": "find-or-push before every stalled return"})
 
+    # ---- CACHE: a 'ready' result that does not come out of the ancestor walk
+    chk.rule("C04-CACHE", "the stall check reports 'ready' only out of the ancestor walk; a shortcut on a global counter is sound only if that counter mirrors the stall flags "
+                          "(incremented only when a clear flag is set, decremented only when a set flag is cleared, zeroed where nodes are discarded)")
+    for name in sorted(R.stall_check):
+        f = P.functions[name]
+        loops = f.loops()
+        heads = [h for h, b in loops.items() if any(ld.bb.id in b for ld in R.stall_loads[name])]
+        if not heads:
+            continue
+        hb = f.bmap[heads[0]].insts[0]
+        for (pt, why) in true_result_points(f):
+            if f.dominates(hb, pt):
+                chk.ok("C04-CACHE", 1, {"function": name, "ready_result": pt.loc(), "after": "ancestor walk"})
+                continue
+            # a shortcut: which mutable globals does it depend on?
+            caches = set()
+            for (gd, truth) in rules.conditions_at(f, pt):
+                for l in _defining_global_loads(f, gd["cond"]):
+                    gname = l["ptr"]["name"]
+                    if any(x.op == "store" and x["ptr"].get("k") == "global" and x["ptr"]["name"] == gname for g_ in P.repo_functions() for x in g_.all_insts()):
+                        caches.add(gname)
+            if not caches:
+                chk.ok("C04-CACHE", 1, {"function": name, "ready_result": pt.loc(), "after": "a test of the arguments only"})
+                continue
+            for gname in sorted(caches):
+                bad = _counter_discipline(P, R, gname)
+                if bad is None:
+                    chk.ok("C04-CACHE", 1, {"function": name, "shortcut_on": gname, "mirrors": "stall flags (guarded +1 / -1, zeroed on discard)"})
+                else:
+                    chk.violation("C04-CACHE", name, "shortcut:%s" % gname, pt.loc(), "the stall check reports 'ready' at line %d from the global '%s' without walking the ancestors, and %s: "
+                                  "the shortcut can claim that no node is stalled while an ancestor is, so traffic is sent into a stalled subtree" % (pt.line, gname, bad))
+
     # ---- WMW on .stall
     chk.rule("C04-WMW", "the stall flag is written only at node creation (false) and by the stall-notice handler")
     handlers = set()
@@ -264,6 +296,125 @@ def type_param(disp):
     """index of the parameter the dispatcher's switch(es) are on"""
     from .. import dispatch
     return dispatch.find_dispatcher(disp.prog)[3 - 1]
+
+
+def _defining_global_loads(f, o, depth=0):
+    out = []
+    if o.get("k") != "inst" or depth > 8:
+        return out
+    i = f.insts[o["id"]]
+    if i.op == "load":
+        if i["ptr"].get("k") == "global":
+            return [i]
+        o2 = rules.resolve_local(f, o)
+        if o2 != o:
+            return _defining_global_loads(f, o2, depth + 1)
+        return out
+    if i.op == "phi":
+        for (_, v) in i["incoming"]:
+            out += _defining_global_loads(f, v, depth + 1)
+        return out
+    for k in ("a", "b"):
+        if k in i.d and isinstance(i[k], dict):
+            out += _defining_global_loads(f, i[k], depth + 1)
+    return out
+
+
+def _counter_discipline(P, R, gname):
+    """None when the global is a counter of set stall flags; otherwise a sentence saying what breaks the correspondence"""
+    updates = []        # (fn, store, delta or 'zero' or None)
+    for g in P.repo_functions():
+        for x in g.all_insts():
+            if x.op == "store" and x["ptr"].get("k") == "global" and x["ptr"]["name"] == gname:
+                c = rules.const_of(g, x["val"])
+                v = g.resolve(rules.strip_casts(g, x["val"]))
+                if c is not None:
+                    updates.append((g, x, "zero" if c == 0 else None))
+                elif v is not None and v.op in ("add", "sub") and rules.const_of(g, v["b"]) in (1, -1):
+                    src = rules.load_source(g, v["a"])
+                    d = rules.const_of(g, v["b"]) * (1 if v.op == "add" else -1)
+                    updates.append((g, x, d if src and src[0] == "global" and src[1] == gname else None))
+                else:
+                    updates.append((g, x, None))
+    for (g, x, d) in updates:
+        if d is None:
+            return "it is written at %s with a value that is neither 0 nor itself +/- 1" % x.loc()
+    # every flag store outside node creation has the matching guarded update in its function
+    for name, stores in sorted(R.stall_stores.items()):
+        if name in R.creators:
+            continue
+        g = P.functions[name]
+        for s in stores:
+            v = rules.const_of(g, s["val"])
+            if v is None:
+                return "the stall flag is stored with a non-constant value at %s" % s.loc()
+            want = 1 if v & 1 else -1
+            mine = [(x, d) for (g2, x, d) in updates if g2 is g and d == want]
+            if not mine:
+                return "the stall flag is %s at %s without the counter being %s" % ("set" if want == 1 else "cleared", s.loc(), "incremented" if want == 1 else "decremented")
+            for (x, d) in mine:
+                ok = False
+                for (gd, truth) in rules.conditions_at(g, x):
+                    for l in _flag_loads(P, g, gd["cond"]):
+                        pol = _cond_polarity_of(g, gd["cond"], l, truth)
+                        # +1 needs 'flag currently clear', -1 needs 'flag currently set'
+                        if pol is not None and pol == (want == -1):
+                            ok = True
+                if not ok:
+                    return "it is %s at %s whether or not the node's stall flag actually changes (a repeated notice moves the counter away from the number of stalled nodes)" % (
+                        "incremented" if want == 1 else "decremented", x.loc())
+    # discarding nodes: the counter is zeroed
+    for g in P.repo_functions():
+        if any(c.callee in ("g_hash_table_iter_remove", "g_hash_table_remove_all", "g_hash_table_destroy") for c in g.calls()) and any(
+                rules.field_path_of_ptr(P, g, i["ptr"]) == ns.STALLQ for i in g.all_insts() if i.op == "load" and i["ptr"].get("k") == "inst"):
+            if not any(g2 is g and d == "zero" for (g2, x, d) in updates):
+                return "%s discards the nodes without zeroing it" % g.name
+    return None
+
+
+def _flag_loads(P, f, o, depth=0):
+    out = []
+    if o.get("k") != "inst" or depth > 8:
+        return out
+    i = f.insts[o["id"]]
+    if i.op == "load":
+        if i["ptr"].get("k") == "inst" and rules.field_path_of_ptr(P, f, i["ptr"]) == ns.STALL:
+            return [i]
+        o2 = rules.resolve_local(f, o)
+        return _flag_loads(P, f, o2, depth + 1) if o2 != o else out
+    for k in ("a", "b"):
+        if k in i.d and isinstance(i[k], dict):
+            out += _flag_loads(P, f, i[k], depth + 1)
+    return out
+
+
+def _cond_polarity_of(f, cond, load, truth):
+    """the condition holding with `truth` means the loaded flag is set (True) / clear (False); None if not a plain truth test"""
+    pol = truth
+    o = cond
+    for _ in range(8):
+        if o.get("k") != "inst":
+            return None
+        i = f.insts[o["id"]]
+        if i.id == load.id:
+            return pol
+        if i.op in ("zext", "sext", "trunc"):
+            o = i["a"]
+        elif i.op == "xor" and rules.const_of(f, i["b"]) in (1, -1):
+            pol = not pol
+            o = i["a"]
+        elif i.op == "icmp" and i["pred"] in ("eq", "ne") and rules.const_of(f, i["b"]) in (0, 1):
+            if (i["pred"] == "eq") == (rules.const_of(f, i["b"]) == 0):
+                pol = not pol
+            o = i["a"]
+        elif i.op == "load":
+            o2 = rules.resolve_local(f, o)
+            if o2 == o:
+                return None
+            o = o2
+        else:
+            return None
+    return None
 
 
 def _alloca_of(f, o):
